@@ -96,7 +96,7 @@ def analyse(path: str) -> Dict[str, Any]:
                             isinstance(g, ast.Global) and t.id in g.names for g in ast.walk(fn)):
                         clears.add(t.id)          # `global M; M = {}`
         info[name] = {"cached": cached, "calls": calls, "reads": reads, "writes": writes, "clears": clears,
-                      "stores": stores, "memo_reads": memo_reads}
+                      "stores": stores, "memo_reads": memo_reads, "writes_t": set(writes)}
     # transitive reads and clears
     changed = True
     while changed:
@@ -104,7 +104,7 @@ def analyse(path: str) -> Dict[str, Any]:
         for name, d in info.items():
             for c in d["calls"]:
                 if c in info and c != name:
-                    for k in ("reads", "clears"):
+                    for k in ("reads", "clears", "writes_t"):
                         if not info[c][k] <= d[k]:
                             d[k] |= info[c][k]
                             changed = True
@@ -138,7 +138,13 @@ def machine() -> Dict[str, Any]:
                 raise symnum.HarnessError(f"{n} stores into several memo tables {sorted(d['stores'])}: no model")
             cache_of[n] = next(iter(d["stores"]))
     cached = sorted(cache_of)
-    writers = sorted(n for n, d in info.items() if d["writes"])
+    # the two declaring entry points; the tables may be written by helpers they call, but by
+    # nothing that is not reached from them
+    writers = sorted(n for n in ("equate", "translate") if n in info and info[n]["writes_t"])
+    stray = sorted(n for n, d in info.items() if d["writes_t"] and n not in ("equate", "translate")
+                   and not (reaches(info, "equate", n) or reaches(info, "translate", n)))
+    if stray:
+        raise symnum.HarnessError(f"the declaration tables are written outside equate/translate: {stray}")
     clears = {w: sorted(info[w]["clears"]) for w in writers}
     known = {"_find_path", "_plan_conversion"}
     # any other cached reader of the tables gets the generic stale-row model (search_generic)
